@@ -380,3 +380,109 @@ func (e *Engine) pureHelper(fn *ssa.Function) bool {
 	e.pure[fn] = ok
 	return ok
 }
+
+// runeLenIdx: the length reported by PeekRune(0) as a look-ahead index: 1..4 bytes, all of them input while the
+// value is fresh (no movement since) and a byte was proven at the position (R-PEEKRUNE: the reported length never
+// exceeds what remains).
+func runeLenIdx(v AbsVal) AbsVal {
+	out := AbsVal{k: vIdx, ilo: 1, ihi: 4, safe: -inf, back: true}
+	if v.fresh && v.runeOK {
+		out.safe = 0
+	}
+	return out
+}
+
+// failurePropagated: every caller of the scanner returns its own failure value straight away when the scanner
+// fails (`if !l.consumeX() { return false }`): the displacement of the failed scan is then part of the caller's
+// failing exit, which is judged there (R-RESTORE on the caller, or its documented exception).
+func (e *Engine) failurePropagated(fn *ssa.Function) bool {
+	sites := callSitesOf(e.r, fn)
+	if len(sites) == 0 {
+		return false
+	}
+	for _, c := range sites {
+		g := c.Parent()
+		if !isFailureResult(g) {
+			return false
+		}
+		ok := false
+		for _, ref := range *c.Referrers() {
+			iff, isIf := ref.(*ssa.If)
+			cond := ssa.Value(c)
+			neg := false
+			if u, isU := ref.(*ssa.UnOp); isU && u.Op == token.NOT {
+				for _, r2 := range *u.Referrers() {
+					if i2, is2 := r2.(*ssa.If); is2 {
+						iff, isIf, neg = i2, true, true
+					}
+				}
+			}
+			if !isIf || iff == nil {
+				continue
+			}
+			_ = cond
+			blk := iff.Block()
+			fail := blk.Succs[1] // call result false
+			if neg {
+				fail = blk.Succs[0]
+			}
+			if ret, isRet := lastInstr(fail).(*ssa.Return); isRet && len(fail.Instrs) == 1 && len(ret.Results) == 1 {
+				if k, isK := ret.Results[0].(*ssa.Const); isK && (k.Value == nil || k.Value.String() == "false" || k.Value.String() == "0") {
+					ok = true
+				}
+			}
+		}
+		if !ok {
+			return false
+		}
+	}
+	return true
+}
+
+// enumTableSplit: x = table[c] where table is a package-level [256]<named integer type> literal (or such a field of a
+// struct table) and c can be one of at most 12 bytes: one successor state per byte with c and x both known.
+func (e *Engine) enumTableSplit(st *State, x *ssa.UnOp) []*State {
+	if _, named := x.Type().(*types.Named); !named {
+		return nil
+	}
+	var ia *ssa.IndexAddr
+	field := -1
+	switch a := x.X.(type) {
+	case *ssa.IndexAddr:
+		ia = a
+	case *ssa.FieldAddr:
+		if i2, ok := a.X.(*ssa.IndexAddr); ok {
+			ia, field = i2, a.Field
+		}
+	}
+	if ia == nil {
+		return nil
+	}
+	g, ok := ia.X.(*ssa.Global)
+	if !ok {
+		return nil
+	}
+	t := e.intTableField(g, field)
+	if t == nil {
+		return nil
+	}
+	set := e.eval(st, ia.Index).byteSet()
+	if n := set.count(); n < 2 || n > 12 {
+		return nil
+	}
+	var outs []*State
+	ms := set.members()
+	for i, b := range ms {
+		s := st
+		if i < len(ms)-1 {
+			s = st.clone()
+		}
+		e.refineByteVal(s, ia.Index, bsOf(b))
+		if s.dead {
+			continue
+		}
+		s.setv(x, intVal(t[b]))
+		outs = append(outs, s)
+	}
+	return outs
+}
